@@ -8,6 +8,7 @@ import (
 var commands = map[string]func([]string){
 	"c01gen":  cmdC01Gen,
 	"c01rand": cmdC01Rand,
+	"c03gen":  cmdC03Gen,
 	"c02":     cmdC02,
 	"serve":   cmdServe,
 	"life":    cmdLife,
